@@ -3,6 +3,10 @@
 // file at all), with right and wrong passphrases (all-zero of the same length, empty, > 32 bytes, prefix,
 // one bit flipped, the passphrase the file was sealed with BEFORE the last re-seal), and signing SESSIONS on
 // the signers the loads yield (fresh slices, one buffer re-used, rewritten in place, a prefix of it).
+// FAULTS between the steps (step kind "damage": the file truncated, emptied, deleted, a structural byte or a
+// base64 character replaced, other text), typically after a key rotation and followed by load / export attempts
+// with the passphrase in force and the one in force before: a damaged file yields nothing, whatever was on the
+// path before (model: HDamage).  Passphrases ending in LF / CRLF / CR are passphrases like any others.
 // After EVERY step the file is read back; its decoded, labelled content is what the Coq model
 // (Model.KeyFile.hstep / hrun, Check.KeyFileCheck.check_hist) must predict, and whenever the text on disk
 // changed the Go oracle probes a COPY of it with the real code: it must open with exactly the passphrase it
@@ -30,8 +34,18 @@ type SignOp struct {
 	Off  int    `json:"off,omitempty"` // patch: offset; prefix: length
 }
 
+// Damage: a fault of the environment between two operations on the path. Positions are relative to the text
+// the file holds when the fault strikes (the salts and nonces the real code draws differ from run to run).
+type Damage struct {
+	Kind string `json:"kind"` // trunc (keep Pos mod len bytes) | empty | delete | struct (the (Pos mod n)-th of the n structural bytes {}":, := Byte) | value (the (Pos mod n)-th base64 character of the values := Byte) | raw (the text becomes Raw)
+	Pos  int    `json:"pos,omitempty"`
+	Byte int    `json:"byte,omitempty"`
+	Raw  []byte `json:"raw,omitempty"`
+}
+
 type HStep struct {
-	Kind     string   `json:"kind"` // load | export | import-exported | import-new | import-bad | create | sign
+	Kind     string   `json:"kind"` // load | export | import-exported | import-new | import-bad | create | sign | damage
+	Damage   *Damage  `json:"damage,omitempty"`
 	Pass     []byte   `json:"pass,omitempty"`
 	PassKind string   `json:"pass_kind,omitempty"`
 	Priv     []byte   `json:"priv,omitempty"` // import-new / import-bad: the key bytes handed to ImportPrivateKey
@@ -98,6 +112,87 @@ type histState struct {
 	signerK  []byte
 	in       *interner
 	res      *caseResult
+	// what the file held when it was last read back (decoded) and the label of its ciphertext
+	lastDesc desc
+	lastCt   string
+	// ghost: a fault changed the decoded content since the file was last sealed: no passphrase may load it
+	// (noLoad), none may export from it (noExport: the ciphertext, nonce or salt changed, or it no longer parses)
+	noLoad, noExport bool
+	damageWhat       string
+}
+
+func (d desc) stateWord() string {
+	switch d.state {
+	case "absent":
+		return "is gone"
+	case "badjson":
+		return "does not parse"
+	}
+	return "decodes to other fields"
+}
+
+// applyDamage: the text of the key file after the fault (del = the file is removed).
+func applyDamage(text []byte, d Damage) (out []byte, del bool) {
+	pick := func(ok func(i int) bool) int {
+		var idx []int
+		for i := range text {
+			if ok(i) {
+				idx = append(idx, i)
+			}
+		}
+		if len(idx) == 0 {
+			return -1
+		}
+		p := d.Pos
+		if p < 0 {
+			p = -p
+		}
+		return idx[p%len(idx)]
+	}
+	switch d.Kind {
+	case "trunc":
+		if len(text) == 0 {
+			return []byte{}, false
+		}
+		p := d.Pos
+		if p < 0 {
+			p = -p
+		}
+		return cp(text[:p%len(text)]), false
+	case "empty":
+		return []byte{}, false
+	case "delete":
+		return nil, true
+	case "struct":
+		i := pick(func(i int) bool { return strings.IndexByte("{}\":,", text[i]) >= 0 })
+		t := cp(text)
+		if i >= 0 {
+			t[i] = byte(d.Byte)
+			if t[i] == text[i] {
+				t[i] = 'x'
+			}
+		}
+		return t, false
+	case "value":
+		ts := string(text)
+		i := pick(func(i int) bool {
+			sp := spanOf(ts, i)
+			return strings.HasPrefix(sp, "value-of-") || strings.HasPrefix(sp, "last-char-of-")
+		})
+		t := cp(text)
+		if i >= 0 {
+			t[i] = byte(d.Byte)
+			if t[i] == text[i] {
+				t[i] = b64[(strings.IndexByte(b64, text[i])+1)%64]
+			}
+		}
+		return t, false
+	}
+	return cp(d.Raw), false
+}
+
+func sameFields(a, b desc) bool {
+	return a.state == "data" && b.state == "data" && bytes.Equal(a.ct, b.ct) && bytes.Equal(a.nonce, b.nonce) && bytes.Equal(a.pub, b.pub) && bytes.Equal(a.salt, b.salt)
 }
 
 func zeros(n int) []byte { return make([]byte, n) }
@@ -126,6 +221,7 @@ func deriveFor(d desc, p []byte) ([]byte, bool) {
 // healthy run one key derivation suffices).
 func (st *histState) label(text []byte, cands [][]byte) (term string, d desc, openedBy []byte, plain []byte) {
 	d = describe(text, text == nil)
+	st.lastDesc, st.lastCt = d, "CJunk"
 	switch d.state {
 	case "absent":
 		return "FAbsent", d, nil, nil
@@ -133,6 +229,7 @@ func (st *histState) label(text []byte, cands [][]byte) (term string, d desc, op
 		return "FBadJson", d, nil, nil
 	}
 	ct := "CJunk"
+	defer func() { st.lastCt = ct }()
 	seen := map[string]bool{}
 	for _, p := range cands {
 		if p == nil {
@@ -263,6 +360,12 @@ func runHistory(h History, res *caseResult, r *rand.Rand, msg []byte) *caseResul
 		}
 		st.text = cp(b.text)
 		f0 = fileTerm(describe(b.text, false), b)
+		st.lastDesc = describe(b.text, false)
+		if b.name != "" {
+			st.lastCt = b.name + ".ct"
+		} else {
+			st.lastCt = ctTermLit(b)
+		}
 		st.legacy = len(b.salt) == 0
 		st.sealPass, st.plain = cp(b.pass), cp(b.priv)
 		st.key = cp(b.priv[:64])
@@ -293,8 +396,12 @@ func runHistory(h History, res *caseResult, r *rand.Rand, msg []byte) *caseResul
 			st.legacy = d.state == "data" && len(d.salt) == 0
 			return fileT, d, openedBy, plain, true
 		}
-		rightPass := st.key != nil && bytes.Equal(step.Pass, st.sealPass)
-		legacyTwin := st.key != nil && !rightPass && st.legacy && sameLegacyKey(step.Pass, st.sealPass)
+		dead := st.noLoad
+		if step.Kind == "export" {
+			dead = st.noExport
+		}
+		rightPass := st.key != nil && !dead && bytes.Equal(step.Pass, st.sealPass)
+		legacyTwin := st.key != nil && !dead && !rightPass && st.legacy && sameLegacyKey(step.Pass, st.sealPass)
 		if len(step.Pass) > 0 || step.Kind == "load" || step.Kind == "export" {
 			st.used = append(st.used, cp(step.Pass))
 		}
@@ -335,6 +442,8 @@ func runHistory(h History, res *caseResult, r *rand.Rand, msg []byte) *caseResul
 					}
 				case legacyTwin:
 					res.fail("legacy-passphrase-only-first-32-bytes-count", fmt.Sprintf("legacy salt-less file sealed under a %d-byte passphrase loads with a different %d-byte passphrase deriving the same legacy key", len(st.sealPass), len(step.Pass)))
+				case st.key != nil && dead:
+					res.fail("damaged-key-file-loads", fmt.Sprintf("at %s: a key file that was damaged after it was written (%s; it now %s) yields a usable signer with a %s passphrase", after, st.damageWhat, st.lastDesc.stateWord(), step.PassKind))
 				default:
 					res.fail("wrong-passphrase-loads", fmt.Sprintf("at %s: file sealed under a %d-byte passphrase loads with a different (%s) passphrase", after, len(st.sealPass), step.PassKind))
 				}
@@ -362,10 +471,12 @@ func runHistory(h History, res *caseResult, r *rand.Rand, msg []byte) *caseResul
 				case rightPass:
 				case legacyTwin:
 					res.fail("legacy-passphrase-only-first-32-bytes-count", fmt.Sprintf("legacy salt-less file sealed under a %d-byte passphrase exports with a different passphrase deriving the same legacy key", len(st.sealPass)))
+				case st.key != nil && dead:
+					res.fail("damaged-key-file-loads", fmt.Sprintf("at %s: ExportPrivateKey returns a private key from a key file that was damaged after it was written (%s; it now %s), with a %s passphrase", after, st.damageWhat, st.lastDesc.stateWord(), step.PassKind))
 				default:
 					res.fail("wrong-passphrase-loads", fmt.Sprintf("at %s: ExportPrivateKey succeeds with a different (%s) passphrase", after, step.PassKind))
 				}
-				if st.key != nil && !bytes.Equal(pt, st.plain) {
+				if st.key != nil && !dead && !bytes.Equal(pt, st.plain) {
 					res.fail("export-returns-other-bytes", "ExportPrivateKey returned bytes other than the sealed private key")
 				}
 				st.exported = cp(pt)
@@ -422,6 +533,7 @@ func runHistory(h History, res *caseResult, r *rand.Rand, msg []byte) *caseResul
 					st.prevPass = st.sealPass
 				}
 				st.sealPass, st.plain, st.key = cp(expected), cp(priv), cp(priv[:64])
+				st.noLoad, st.noExport = false, false
 				st.probe(st.text, msg, after, "export-import-over-existing-file-loses-key", "resealed-file-opens-with-another-passphrase")
 			default:
 				if valid && o.class != "panic" {
@@ -472,6 +584,7 @@ func runHistory(h History, res *caseResult, r *rand.Rand, msg []byte) *caseResul
 				}
 				sg, salt, nonce = fmt.Sprintf("(mk_signer %s %s)", in.b(plain), in.b(d.pub)), d.salt, d.nonce
 				st.sealPass, st.plain, st.key, st.prevPass = cp(expected), cp(plain), cp(plain[:64]), nil
+				st.noLoad, st.noExport = false, false
 				cf := facts(created, msg, [][]byte{plain})
 				if cf.privIs == nil || !cf.sigOK || !cf.addrOK || !bytes.Equal(cf.pub, d.pub) {
 					res.fail("create-signer-differs-from-file", "the signer returned by CreateFileSystemSigner is not the key it wrote")
@@ -486,6 +599,54 @@ func runHistory(h History, res *caseResult, r *rand.Rand, msg []byte) *caseResul
 				st.probe(st.text, msg, after, "create-overwrites-existing-key-file", "create-overwrites-existing-key-file")
 			}
 			emit(fmt.Sprintf("(HCreate %s %s %s %s)", sg, in.b(step.Pass), in.b(salt), in.b(nonce)), resT, false, false, fileT)
+
+		case "damage":
+			if before == nil || step.Damage == nil {
+				kinds[len(kinds)-1] = "skipped"
+				continue
+			}
+			kinds[len(kinds)-1] = "damage:" + step.Damage.Kind
+			nt, del := applyDamage(before, *step.Damage)
+			path := filepath.Join(dir, "signer.json")
+			var werr error
+			if del {
+				werr = os.Remove(path)
+			} else {
+				werr = os.WriteFile(path, nt, 0o600)
+			}
+			if werr != nil {
+				res.err = werr
+				return res
+			}
+			prevD, prevCt := st.lastDesc, st.lastCt
+			t := st.readBack()
+			d := describe(t, t == nil)
+			fileT := "FAbsent"
+			switch d.state {
+			case "badjson":
+				fileT = "FBadJson"
+			case "data":
+				// a ciphertext field that still holds the bytes it held keeps its label; changed bytes are bytes no key opens
+				ct := "CJunk"
+				if prevD.state == "data" && bytes.Equal(d.ct, prevD.ct) {
+					ct = prevCt
+				}
+				fileT = fmt.Sprintf("(FData (mk_kd %s %s %s %s))", ct, in.b(d.nonce), in.b(d.pub), in.b(d.salt))
+				st.lastCt = ct
+			}
+			if d.state != "data" {
+				st.lastCt = "CJunk"
+			}
+			st.lastDesc, st.text, st.term = d, t, fileT
+			st.legacy = d.state == "data" && len(d.salt) == 0
+			if !sameFields(prevD, d) {
+				st.noLoad = true
+				st.damageWhat = fmt.Sprintf("fault %q at step %d", step.Damage.Kind, si+1)
+				if !(d.state == "data" && prevD.state == "data" && bytes.Equal(d.ct, prevD.ct) && bytes.Equal(d.nonce, prevD.nonce) && bytes.Equal(d.salt, prevD.salt)) {
+					st.noExport = true
+				}
+			}
+			emit("(HDamage "+fileT+")", "(RDone (Ok tt))", false, false, fileT)
 
 		case "sign":
 			if st.signer == nil {
@@ -618,7 +779,35 @@ func runSession(st *histState, sops []SignOp, after string) string {
 
 // ---- generator ---------------------------------------------------------------------------------------------
 
-var histPassKinds = []string{"right", "right", "right", "right", "zero-same-len", "zero-same-len", "empty", "long-33", "long-4096", "prefix", "bit-flip", "previous", "extension", "unrelated"}
+var histPassKinds = []string{"right", "right", "right", "right", "zero-same-len", "zero-same-len", "empty", "long-33", "long-4096", "prefix", "bit-flip", "previous", "extension", "unrelated", "plus-linebreak", "plus-linebreak", "minus-linebreak"}
+
+var lineBreaks = []string{"\n", "\r\n", "\n\n", "\r", "\n\r\n"}
+
+// withLineBreak: one time in four the passphrase ends in a line break (LF, CRLF, ...), the way a passphrase
+// read from a file or piped in does; such bytes are part of the passphrase like any others.
+func withLineBreak(r *rand.Rand, p []byte) []byte {
+	if r.Intn(4) == 0 {
+		return append(cp(p), lineBreaks[r.Intn(len(lineBreaks))]...)
+	}
+	return p
+}
+
+func genDamage(r *rand.Rand) *Damage {
+	switch k := r.Intn(100); {
+	case k < 30:
+		return &Damage{Kind: "trunc", Pos: r.Intn(1 << 16)}
+	case k < 40:
+		return &Damage{Kind: "empty"}
+	case k < 50:
+		return &Damage{Kind: "delete"}
+	case k < 70:
+		return &Damage{Kind: "struct", Pos: r.Intn(1 << 16), Byte: substByte(r, 2, 0)}
+	case k < 90:
+		return &Damage{Kind: "value", Pos: r.Intn(1 << 16), Byte: substByte(r, 1, 0)}
+	}
+	raws := []string{"{}", "null", "not json", "{\"salt\":\"\"}", "[]", "{\"nonce\":\"AAAAAAAAAAAAAAAA\"}"}
+	return &Damage{Kind: "raw", Raw: []byte(raws[r.Intn(len(raws))])}
+}
 
 func histPass(r *rand.Rand, kind string, seal, prev []byte) ([]byte, string) {
 	var p []byte
@@ -646,6 +835,17 @@ func histPass(r *rand.Rand, kind string, seal, prev []byte) ([]byte, string) {
 		p = cp(prev)
 	case "extension":
 		p = append(cp(seal), byte(r.Intn(256)))
+	case "plus-linebreak":
+		p = append(cp(seal), lineBreaks[r.Intn(len(lineBreaks))]...)
+	case "minus-linebreak":
+		if t := bytes.TrimRight(seal, "\r\n"); len(t) < len(seal) {
+			p = cp(t)
+			if r.Intn(3) == 0 { // one line break less, not all of them
+				p = cp(seal[:len(seal)-1])
+			}
+		} else {
+			p, kind = append(cp(seal), '\n'), "plus-linebreak"
+		}
 	}
 	if p == nil {
 		p, kind = rbytes(r, 1+r.Intn(20)), "unrelated"
@@ -701,7 +901,7 @@ func genHist(r *rand.Rand, seed int64, c int, b *baseInfo) History {
 	loaded := false
 	if b == nil {
 		h.BaseKind = "absent"
-		seal = genPass(r, []int{0, 1, 10, 31, 32, 33, 4096}[r.Intn(7)])
+		seal = withLineBreak(r, genPass(r, []int{0, 1, 10, 31, 32, 33, 4096}[r.Intn(7)]))
 		h.Steps = append(h.Steps, HStep{Kind: "create", Pass: cp(seal), PassKind: "new"})
 		loaded = true
 	} else {
@@ -718,16 +918,50 @@ func genHist(r *rand.Rand, seed int64, c int, b *baseInfo) History {
 	if r.Intn(10) < 6 {
 		load("right")
 	}
+	// gone: a fault has removed the file (a create works again); dead: a fault has damaged it since it was last sealed
+	gone, dead := false, false
+	rotate := func() {
+		priv, _ := newKey(r)
+		np := withLineBreak(r, genPass(r, []int{0, 1, 8, 32, 33}[r.Intn(5)]))
+		if r.Intn(4) == 0 {
+			np = cp(seal) // a new key under the passphrase in force
+		}
+		h.Steps = append(h.Steps, HStep{Kind: "import-new", Pass: cp(np), PassKind: "new", Priv: priv})
+		if !bytes.Equal(np, seal) {
+			prev = seal
+		}
+		seal = np
+		loaded, gone, dead = false, false, false
+	}
+	damage := func() {
+		d := genDamage(r)
+		h.Steps = append(h.Steps, HStep{Kind: "damage", Damage: d})
+		if !gone {
+			dead = true
+		}
+		if d.Kind == "delete" {
+			gone = true
+		}
+		loaded = false
+	}
 	n := 2 + r.Intn(6)
 	for i := 0; i < n; i++ {
-		switch k := r.Intn(100); {
+		switch k := r.Intn(110); {
+		case k >= 100: // a fault strikes the file, then the operator tries what he knows
+			damage()
+			load("right")
+			if r.Intn(2) == 0 {
+				load("previous")
+			}
 		case k < 36:
 			load(histPassKinds[r.Intn(len(histPassKinds))])
 		case k < 50:
 			p, pk := histPass(r, histPassKinds[r.Intn(len(histPassKinds))], seal, prev)
 			h.Steps = append(h.Steps, HStep{Kind: "export", Pass: p, PassKind: pk})
+		case k < 64 && (dead || gone): // nothing to export from: a new key is imported over what is left
+			rotate()
 		case k < 64: // re-seal: export with the right passphrase, import what came out under a new one, over the same path
-			np := genPass(r, []int{0, 1, 8, 31, 32, 33, 100, 4096}[r.Intn(8)])
+			np := withLineBreak(r, genPass(r, []int{0, 1, 8, 31, 32, 33, 100, 4096}[r.Intn(8)]))
 			if r.Intn(8) == 0 {
 				np = zeros(1 + r.Intn(40))
 			}
@@ -737,25 +971,44 @@ func genHist(r *rand.Rand, seed int64, c int, b *baseInfo) History {
 			}
 			seal = np
 		case k < 70:
-			priv, _ := newKey(r)
-			np := genPass(r, []int{0, 1, 8, 32, 33}[r.Intn(5)])
-			h.Steps = append(h.Steps, HStep{Kind: "import-new", Pass: cp(np), PassKind: "new", Priv: priv})
-			if !bytes.Equal(np, seal) {
-				prev = seal
-			}
-			seal = np
-			loaded = false
+			rotate()
 		case k < 76:
 			bad := rbytes(r, []int{0, 32, 63, 65, 96}[r.Intn(5)]) // 96 random bytes: the redundant public key does not match
 			h.Steps = append(h.Steps, HStep{Kind: "import-bad", Pass: genPass(r, 8), PassKind: "new", Priv: bad})
 		case k < 82:
 			p, pk := histPass(r, []string{"right", "unrelated", "empty"}[r.Intn(3)], seal, prev)
 			h.Steps = append(h.Steps, HStep{Kind: "create", Pass: p, PassKind: pk})
+			if gone { // the path is free again: this create seals a new key
+				if !bytes.Equal(p, seal) {
+					prev = seal
+				}
+				seal, gone, dead, loaded = cp(p), false, false, true
+			}
 		default:
 			if !loaded {
 				load("right")
 			}
 			h.Steps = append(h.Steps, HStep{Kind: "sign", Sign: genSignOps(r)})
+		}
+	}
+	// a key rotation, then a fault on the file, then the operator tries the passphrases he knows (the one in
+	// force, the one in force before the rotation), to load and to export; then (sometimes) a new key is imported
+	if r.Intn(100) < 45 {
+		for k := r.Intn(3); k > 0 || gone; k-- {
+			rotate()
+			if r.Intn(3) == 0 {
+				load("right")
+			}
+		}
+		damage()
+		for _, k := range []string{"right", "previous"} {
+			load(k)
+		}
+		p, pk := histPass(r, []string{"right", "previous"}[r.Intn(2)], seal, prev)
+		h.Steps = append(h.Steps, HStep{Kind: "export", Pass: p, PassKind: pk})
+		if r.Intn(3) == 0 {
+			rotate()
+			load("previous")
 		}
 	}
 	// the way a node restarts: load with what the operator knows, then sign
